@@ -34,18 +34,19 @@ class VmStackList(TlbScheme):
     """
     @classmethod
     def serialize(cls, data: list) -> Cell:
-        builder = Builder()
-        if len(data) == 0:
-            return builder.end_cell()
-        builder.store_ref(cls.serialize(data[:-1]))  # the caller's list is left as it is
-        return builder.store_cell(VmStackValue.serialize(data[-1])).end_cell()
+        # a loop, not recursion: the list is one cell deep per value (up to 1023); the caller's list is left as it is
+        cell = Builder().end_cell()
+        for value in data:
+            cell = Builder().store_ref(cell).store_cell(VmStackValue.serialize(value)).end_cell()
+        return cell
 
     @classmethod
     def deserialize(cls, cell_slice: Slice, n_p_1: int):  # n_p_1 stands for n plus 1 or n + 1
-        if n_p_1 == 0:
-            return []
-        result = cls.deserialize(cell_slice.load_ref().begin_parse(), n_p_1 - 1)
-        return result + [VmStackValue.deserialize(cell_slice)]
+        slices = []
+        for _ in range(n_p_1):
+            slices.append(cell_slice)
+            cell_slice = cell_slice.load_ref().begin_parse()
+        return [VmStackValue.deserialize(s) for s in reversed(slices)]
 
 
 class VmStackValue(TlbScheme):
